@@ -38,6 +38,7 @@ pub fn requirements(tier: Tier) -> Vec<(&'static str, u64)> {
         ("feature:amp-in-qualifier-value", 1),
         ("feature:eq-in-qualifier-value", 1),
         ("feature:literal-percent-text", 1),
+        ("workload:large-inputs", 25),
     ]
 }
 
@@ -232,12 +233,43 @@ pub fn run(ctx: &mut Ctx) {
         ctx.st.count("workload:g10-mutants");
         check_all(ctx, &s);
     }
+    large(ctx);
     // escape soup
     let mut r = ctx.rng("c01.soup");
     for _ in 0..ctx.share(300_000, 8_000_000) {
         let s = gen::escape_soup(&mut r);
         ctx.st.count("workload:escape-soup");
         check_all(ctx, &s);
+    }
+}
+
+/// Large inputs (G11): the round trip also holds for long components and many segments /
+/// qualifiers. Quick: the 64 KiB catalogue; thorough: 64 KiB, 256 KiB, 1 MiB.
+fn large(ctx: &mut Ctx) {
+    let sizes: &[usize] = if ctx.quick() { &[64 << 10] } else { &[64 << 10, 256 << 10, 1 << 20] };
+    let mut i = 0u64;
+    for size in sizes {
+        for (_name, s) in gen::large_inputs(*size) {
+            i += 1;
+            if !ctx.mine(i) {
+                continue;
+            }
+            ctx.st.count("workload:large-inputs");
+            ctx.st.max("max:input-bytes", s.len() as u64);
+            // failures on huge strings are reported unshrunk (the oracle is the same)
+            for (inst, f) in [("String", judge::<String>(&s).1), ("SmallString", judge::<SmallString>(&s).1), ("Purl", judge::<PackageType>(&s).1)] {
+                ctx.st.evaluations += 1;
+                if let Some(f) = f {
+                    let head: String = s.chars().take(80).collect();
+                    ctx.st.violation(
+                        "C01.roundtrip",
+                        format!("C01.roundtrip:{}:large:{}", f.kind, crate::shrink::sig_of(&head)),
+                        f.detail.chars().take(600).collect(),
+                        json!({"instantiation": inst, "input": s}),
+                    );
+                }
+            }
+        }
     }
 }
 
